@@ -8,7 +8,7 @@ from vf.core import Part, Violation, call
 from vf.props import common
 
 PROPERTY = "C10"
-RULE = ("Part 'adversarial': Hypothesis generates models whose leaf AND sub-proposition ids come from one tiny alphabet "
+RULE = ("Parts 'lookalike_trees' (ENUMERATED trees whose ids differ only in blanks / case / tab / unicode composition: must be accepted; expected verdict taken from the spec) and 'confusable_bounds' (ENUMERATED: one id with two easily confused bounds - equal sums, equal up to 16 / 32 bits, boolean vs wide - in siblings, at different depths, below a negation: must be rejected). Part 'adversarial': Hypothesis generates models whose leaf AND sub-proposition ids come from one tiny alphabet "
         "('a','b','ab','bc','abc','a1','1','A','B','') so reuse is the norm; leaf bounds from easily confused families (equal "
         "sums (0,3)/(1,2), (0,0)/(-1,1); equal hash(lo)+hash(hi) under hash(-1)==-2; shifted/swapped pairs); compounds that "
         "reuse an explicit id with different sign/value/children; generated-id coincidences (Any('ab','c') vs Any('a','bc')); "
